@@ -521,10 +521,15 @@ impl<W: 'static, R: SeedableRng + RngCore + 'static, T: 'static> XSequence<W, R,
         // we have two options here, either we copy and entire array and shuffle it up to k (the "pool" method), or we remember which indices we have already picked and re-roll those if we see them(the "pick" method)
         // the pool method is better for large k, but the pick method is better for small k
         let use_pool = {
-            let exp = u64::BITS - (3 * k).leading_zeros();
-            let size_of_set = 6 + 4usize.pow(exp / 2);
+            let exp = u64::BITS - k.saturating_mul(3).leading_zeros();
+            let size_of_set = 4usize.saturating_pow(exp / 2).saturating_add(6);
             len <= size_of_set
         };
+        // either way a vector of this many elements is built before anything else happens
+        rt.can_allocate(
+            (if use_pool { len } else { k })
+                .saturating_mul(size_of::<Rc<ManagedXValue<W, R, T>>>()),
+        )?;
 
         if use_pool {
             let mut pool =
